@@ -12,7 +12,7 @@ from qstrader.portcon.pcm import PortfolioConstructionModel as PCM
 from qstrader.portcon.optimiser.fixed_weight import FixedWeightPortfolioOptimiser
 
 G = 'PortfolioConstructionModel._generate_rebalance_orders#'
-L_FILL_CUR, L_FILL_TGT, L_DIFF = G + 'for target_portfolio#0', G + 'for current_portfolio#0', G + 'for target_portfolio.keys()#0'
+L_FILL_CUR, L_FILL_TGT, L_DIFF = G + 'for _#0', G + 'for _#1', G + 'for _.keys()#0'
 REPORT = ('quantity', 'market_value', 'unrealised_pnl', 'realised_pnl', 'total_pnl')
 PCM_FUNCS = ['PortfolioConstructionModel.__init__', 'PortfolioConstructionModel._obtain_full_asset_list',
              'PortfolioConstructionModel._create_zero_target_weight_vector', 'PortfolioConstructionModel._create_full_asset_weight_vector',
